@@ -9,6 +9,8 @@ The streams are aimed at the case splits of the proofs and of the code:
   * leading dots (runs of 1..4), also right after a soft line break
   * header shapes: none, no separator, Content-Transfer-Encoding present/absent, long header lines with/without blanks
   * multipart with present / missing / duplicated / terminal boundaries, nested parts
+  * well-formed multipart aimed at send_qp's per-part decision matrix: {over-long line in the part's own header, over-long
+    body line, 8 bit in the part's body / header, nothing} x {8BITMIME or not} x {first / middle / last part, nested}
 """
 import runlib as R
 
@@ -165,8 +167,75 @@ def _multipart(rng, depth=0):
     return out
 
 
+PART_DEFECTS = ['longhdr', 'longhdr', 'longhdr', 'longbody', '8bitbody', '8bithdr', 'none', 'longhdr+8bitbody', 'longhdr+longbody']
+
+
+def _mpart(rng, defect, eol):
+    """one MIME part (header, empty line, body) with exactly the named defects"""
+    hdr = [rng.choice([b'Content-Type: text/plain', b'Content-Type: text/plain; charset=iso-8859-1', b'Content-Disposition: inline'])]
+    if rng.random() < 0.4:
+        hdr.append(rng.choice([b'X-Part: 1', b'Content-Transfer-Encoding: 8bit', b'Content-Description: a part']))
+    if 'longhdr' in defect:
+        n = rng.choice([999, 1000, 1001, 1040, 1500, 1771, 2100])
+        kind = rng.choice(['words', 'words', 'words', 'a'])
+        t = bytearray(b'X-Long: ' + _txt(rng, n - 8, kind))
+        if kind == 'a' and rng.random() < 0.5:
+            t[rng.choice([40, 60, 799, 801, 969])] = 32
+        hdr.insert(rng.randrange(len(hdr) + 1), bytes(t))
+    if '8bithdr' in defect:
+        hdr.append(b'X-Bad: caf\xe9')
+    body = [_txt(rng, rng.randrange(0, 60), 'a') for _ in range(rng.randrange(0, 3))]
+    if 'longbody' in defect:
+        body.insert(rng.randrange(len(body) + 1), _txt(rng, rng.choice([999, 1000, 1300]), rng.choice(['a', 'words'])))
+    if '8bitbody' in defect:
+        body.insert(rng.randrange(len(body) + 1), _txt(rng, rng.randrange(1, 80), '8bit'))
+    if rng.random() < 0.15:
+        body.append(b'.' + _txt(rng, 5, 'a'))
+    return eol.join(hdr) + eol + eol + b''.join(l + eol for l in body)
+
+
+def _part_matrix(rng):
+    """well-formed multipart aimed at send_qp's per-part decision (nr & nr_match):
+    {over-long line in the part's own header, over-long body line, 8 bit in body / header, nothing} x position of the
+    part (first / middle / last) x nesting; everything else in the message is clean 7-bit text with short lines"""
+    eol = rng.choice([b'\r\n', b'\r\n', b'\r\n', b'\n', b'\r'])
+    b = rng.choice([b'x', b'=_bnd_1', b'part-matrix.0', b'b' * 69])
+    quoted = b.find(b'=') >= 0 or rng.random() < 0.5
+    nparts = rng.randrange(1, 5)
+    where = rng.randrange(nparts)
+    defect = rng.choice(PART_DEFECTS)
+    parts = []
+    for i in range(nparts):
+        d = defect if i == where else ('none' if rng.random() < 0.85 else rng.choice(PART_DEFECTS))
+        if i == where and rng.random() < 0.2:
+            # the part is itself a multipart with the defect in one of its parts
+            ib = rng.choice([b'inner', b'in.2'])
+            inner = [_mpart(rng, d if k == 0 else 'none', eol) for k in range(rng.randrange(1, 3))]
+            rng.shuffle(inner)
+            p = b'Content-Type: multipart/alternative; boundary="' + ib + b'"' + eol + eol
+            p += b''.join(eol + b'--' + ib + eol + x for x in inner) + eol + b'--' + ib + b'--' + eol
+            parts.append(p)
+        else:
+            parts.append(_mpart(rng, d, eol))
+    hdr = [b'Subject: parts', b'MIME-Version: 1.0']
+    hdr.insert(rng.randrange(3), b'Content-Type: multipart/mixed; boundary=' + (b'"' + b + b'"' if quoted else b))
+    m = eol.join(hdr) + eol + eol
+    if rng.random() < 0.5:
+        m += b'This is a MIME message.' + eol
+    for x in parts:
+        m += eol + b'--' + b + eol + x
+    m += eol + b'--' + b + b'--' + eol
+    if rng.random() < 0.2:
+        m += b'epilogue' + eol
+    return m
+
+
 def gen_message(rng):
     s = rng.random()
+    if 0.70 <= s < 0.79:
+        return _part_matrix(rng)
+    # the other streams share the rest of the unit interval in their old proportions
+    s = s / 0.70 * 0.80 if s < 0.70 else (0.80 + (s - 0.79) / 0.21 * 0.20)
     if s < 0.10:      # tiny, exhaustive-ish alphabet: every interaction of CR LF dot blank
         n = rng.randrange(0, 9)
         return bytes(rng.choice(b'\r\n. a=\t\x80') for _ in range(n))
@@ -224,7 +293,8 @@ RULE = ('cases = (extension mask, message bytes, HELO name) for the sequence nee
         '1200/1205/1269/1280-octet staging buffers; single lines of 996..1002 octets with/without dot and line end; header+body that needs '
         'quoted-printable with lines around the 72..76 soft-break columns and every last byte in {blank, tab, CR, LF, ".", "=", 0x80, NUL}; '
         'long header lines (fold points 50/800/970, with and without blanks); multipart with present / missing / duplicated / terminal '
-        'boundaries and nested parts; raw random bytes. non-trivial = the C completed the transfer and the message contains a bare CR or LF, '
+        'boundaries and nested parts; well-formed multipart with exactly one defective part (over-long line in its own header / in its body, '
+        '8 bit in its body / header, none) at every position and nested; raw random bytes. non-trivial = the C completed the transfer and the message contains a bare CR or LF, '
         'a leading dot, an 8-bit octet or a line above 72 octets; distinct by case text')
 TRUSTED_BASE = [
     'Coq 8.16.1 kernel (coqc; coqchk in thorough); vm_compute in the non-vacuity examples only; no native_compute',
